@@ -697,6 +697,51 @@ func expectFailed(pre *snap, x *txSpec, feeUsed *big.Int) *snap {
 	return e
 }
 
+// expectLeak: the one known way an ERROR receipt leaves more than fee and nonce (known finding
+// vm-fee-check-after-commit): the scripted call succeeded, its transfers to third accounts were written,
+// then Execute's balance-for-fee check failed. Returns the two admissible states (without / with the
+// contract's storage writes, which survive only if the storage object is shared with the block's cache),
+// or nil if the transaction does not have that shape.
+func (s *session) expectLeak(pre *snap, x *txSpec, feeUsed *big.Int) []*snap {
+	if x.sc == nil || x.sc.err != "ok" || x.rcpt < 0 && x.typ != types.TxType_DEPLOY && x.typ != types.TxType_NORMAL {
+		return nil
+	}
+	rc := x.rcpt
+	if rc < 0 {
+		rc = x.newAddr
+	}
+	e := expectFailed(pre, x, feeUsed)
+	av := new(big.Int).Set(pre.acct(rc).bal)
+	if x.sender != rc {
+		av.Add(av, x.amount)
+	}
+	for _, t := range x.sc.xfers {
+		if t.to == rc {
+			continue
+		}
+		if t.amt.Cmp(av) > 0 {
+			return nil // the VM call itself fails: no effects
+		}
+		av.Sub(av, t.amt)
+		if t.to != x.sender {
+			a := e.acct(t.to)
+			a.bal = new(big.Int).Add(a.bal, t.amt)
+			e.accts[t.to] = a
+		}
+	}
+	e2 := e.clone()
+	for _, kv := range x.sc.sets {
+		if e2.stor[rc] == nil {
+			e2.stor[rc] = map[int]int{}
+		}
+		e2.stor[rc][kv[0]] = kv[1]
+	}
+	for _, k := range x.sc.dels {
+		delete(e2.stor[rc], k)
+	}
+	return []*snap{e, e2}
+}
+
 // expectSuccess: the intended effects of a successful transaction, written without account copies.
 func (s *session) expectSuccess(pre *snap, x *txSpec, feeUsed *big.Int, blockNo uint64) *snap {
 	e := pre.clone()
@@ -831,6 +876,7 @@ func (s *session) runTx(bs *state.BlockState, exec chain.TxExecFn, bi *types.Blo
 	}
 	var impl string
 	residue := false
+	leakShape := false
 	known := ""
 	z := new(big.Int)
 	sumPre := new(big.Int).Add(pre.sum(), pre.bp)
@@ -864,9 +910,16 @@ func (s *session) runTx(bs *state.BlockState, exec chain.TxExecFn, bi *types.Blo
 			exp := expectFailed(pre, x, feeUsed)
 			if !post.equalState(exp) {
 				residue = true
+				for _, l := range s.expectLeak(pre, x, feeUsed) {
+					if post.equalState(l) {
+						leakShape = true
+					}
+				}
 				if !x.beyondVM {
-					known = "vm-fee-check-after-commit"
-					s.fail("C03", "a transaction with an ERROR receipt changed more than fee and nonce", known, line, "pre    "+pre.dump(z), "post   "+post.dump(z), "expect "+exp.dump(z))
+					if leakShape {
+						known = "vm-fee-check-after-commit"
+					}
+					s.fail("C03", "a transaction with an ERROR receipt did not change exactly fee and nonce", known, line, "pre    "+pre.dump(z), "post   "+post.dump(z), "expect "+exp.dump(z))
 				}
 			}
 		} else {
@@ -885,7 +938,7 @@ func (s *session) runTx(bs *state.BlockState, exec chain.TxExecFn, bi *types.Blo
 	if sumPre.Cmp(sumPost) != 0 && !x.beyondVM {
 		if known == "" {
 			known = s.classify(x, pre)
-			if known == "" && residue {
+			if known == "" && leakShape {
 				known = "vm-fee-check-after-commit"
 			}
 		}
@@ -1729,9 +1782,32 @@ func (b *blockGen) genPrefund() *txSpec {
 	return x
 }
 
+// genRejectAfterCommit: a call whose scripted VM fee exceeds everything the sender ever held (outside
+// the real VM's gas bound: labelled beyondVM). The VM writes third accounts and storage, Execute's fee
+// check fails, resetAccount finds the fee greater than the balance: the tx is REJECTED after all those
+// writes, and the executor's rollback has to undo them.
+func (b *blockGen) genRejectAfterCommit() *txSpec {
+	cs := b.contracts()
+	if len(cs) == 0 {
+		return b.genTransferLike()
+	}
+	u := b.pickUser()
+	ct := cs[b.s.rng.Intn(len(cs))]
+	x := &txSpec{typ: types.TxType_CALL, sender: u, rcpt: ct, amount: big.NewInt(int64(b.s.rng.Intn(3))), nonce: b.nextNonce(u), label: "reject-after-vm-commit"}
+	x.sc = &script{fee: new(big.Int).Add(b.cur.acct(u).bal, big.NewInt(1)), err: "ok",
+		xfers: []xfer{{iGhost0 + b.s.rng.Intn(nGhosts), new(big.Int)}, {b.pickUser(), new(big.Int).Div(b.cur.acct(ct).bal, big.NewInt(3))}},
+		sets: [][2]int{{b.s.rng.Intn(nKeys), 1 + b.s.rng.Intn(9)}}}
+	x.payload = b.s.scriptJSON(x.sc)
+	x.beyondVM = true
+	return x
+}
+
 func (b *blockGen) genAny() *txSpec {
 	if b.s.rng.Chance(1, 40) {
 		return b.genPrefund()
+	}
+	if b.s.rng.Chance(1, 30) {
+		return b.genRejectAfterCommit()
 	}
 	switch b.s.rng.Intn(20) {
 	case 0, 1, 2, 3, 4, 5:
